@@ -228,8 +228,8 @@ Qed.
 
 Lemma body_no_cr s : Forall (fun c => eshape bytes c (esc c)) s -> no_cr (flat_map esc s) = true.
 Proof.
-  induction 1 as [|c s Hc _ IH]; [reflexivity|]. cbn [flat_map]. unfold no_cr in *.
-  rewrite forallb_app, IH. rewrite (shape_no_cr _ _ _ Hc). reflexivity.
+  induction 1 as [|c s Hc _ IH]; [reflexivity|]. cbn [flat_map]. unfold no_cr. rewrite forallb_app.
+  fold (no_cr (esc c)). fold (no_cr (flat_map esc s)). rewrite IH, (shape_no_cr _ _ _ Hc). reflexivity.
 Qed.
 
 Lemma body_unescape s : Forall (fun c => eshape bytes c (esc c)) s -> forall f, (length s <= f)%nat ->
@@ -249,8 +249,197 @@ Qed.
 
 End Str2.
 
-Lemma body_ascii W esc s : Forall (fun c => eshape true c (esc c)) s -> asciib (flat_map esc s) = true.
+Lemma body_ascii esc s : Forall (fun c => eshape true c (esc c)) s -> asciib (flat_map esc s) = true.
 Proof.
-  induction 1 as [|c s Hc _ IH]; [reflexivity|]. cbn [flat_map]. unfold asciib in *.
-  rewrite forallb_app, IH. rewrite (shape_ascii _ _ Hc). reflexivity.
+  induction 1 as [|c s Hc _ IH]; [reflexivity|]. cbn [flat_map]. unfold asciib. rewrite forallb_app.
+  fold (asciib (esc c)). fold (asciib (flat_map esc s)). rewrite IH, (shape_ascii _ _ Hc). reflexivity.
 Qed.
+
+(* ---------------------------------------------------------------- what hy-repr prints for str and bytes *)
+Lemma replace_c_none a b t : forallb (fun c => negb (N.eqb c a)) t = true -> replace_c a b t = t.
+Proof.
+  induction t as [|c t IH]; intros H; [reflexivity|]. simpl in H. apply andb_prop in H as [Hc H].
+  apply negb_true_iff in Hc. unfold replace_c in *. cbn [flat_map]. rewrite Hc, IH by exact H. reflexivity.
+Qed.
+
+Lemma replace_c_flat_map a b (f : N -> text) s :
+  replace_c a b (flat_map f s) = flat_map (fun c => replace_c a b (f c)) s.
+Proof.
+  induction s as [|c s IH]; [reflexivity|]. cbn [flat_map]. unfold replace_c in *. rewrite flat_map_app, IH. reflexivity.
+Qed.
+
+Lemma inert_no_dq t : forallb inert t = true -> forallb (fun c => negb (N.eqb c c_dq)) t = true.
+Proof.
+  induction t as [|c t IH]; intros H; [reflexivity|]. simpl in *. apply andb_prop in H as [Hc H].
+  destruct (inert_parts c Hc) as (_ & A & _). apply N.eqb_neq in A. rewrite A, IH by exact H. reflexivity.
+Qed.
+
+Lemma esc_x_no_dq c : replace_c c_dq [c_bs; c_dq] (esc_x c) = esc_x c.
+Proof. apply replace_c_none. unfold esc_x. cbn [forallb]. rewrite inert_no_dq by apply hex_fixed_inert. reflexivity. Qed.
+Lemma esc_u_no_dq c : replace_c c_dq [c_bs; c_dq] (esc_u c) = esc_u c.
+Proof. apply replace_c_none. unfold esc_u. cbn [forallb]. rewrite inert_no_dq by apply hex_fixed_inert. reflexivity. Qed.
+Lemma esc_U_no_dq c : replace_c c_dq [c_bs; c_dq] (esc_U c) = esc_U c.
+Proof. apply replace_c_none. unfold esc_U. cbn [forallb]. rewrite inert_no_dq by apply hex_fixed_inert. reflexivity. Qed.
+
+Section HyStr.
+Variable W : oracle.
+
+(* one character of the text between the double quotes *)
+Definition hy_esc (q c : N) : text := replace_c c_dq [c_bs; c_dq] (py_esc_str W q c).
+Definition hy_esc_b (q c : N) : text := replace_c c_dq [c_bs; c_dq] (py_esc_bytes q c).
+
+Lemma py_quote_cases s : (py_quote s = c_sq) \/ (py_quote s = c_dq /\ mem c_dq s = false).
+Proof.
+  unfold py_quote. destruct (mem c_sq s); simpl; [|left; reflexivity].
+  destruct (mem c_dq s); simpl; [left; reflexivity|right; split; reflexivity].
+Qed.
+
+Lemma single_dq_or_not c : replace_c c_dq [c_bs; c_dq] [c] = if N.eqb c c_dq then [c_bs; c_dq] else [c].
+Proof. unfold replace_c. simpl. destruct (N.eqb c c_dq); reflexivity. Qed.
+
+Lemma hy_esc_shape q c : c < 1114112 -> (q = c_sq \/ (q = c_dq /\ c <> c_dq)) -> eshape false c (hy_esc q c).
+Proof.
+  intros Hv Hq. unfold hy_esc, py_esc_str.
+  destruct (N.eqb c q || N.eqb c c_bs) eqn:E1.
+  { (* the quote character or the backslash *)
+    assert (Hc : c = c_sq \/ c = c_bs).
+    { apply orb_prop in E1 as [E|E]; apply N.eqb_eq in E; [|right; exact E].
+      destruct Hq as [->|[-> Hn]]; [left; exact E|congruence]. }
+    destruct Hc as [->| ->]; apply (ShSimple false _ _); reflexivity. }
+  apply orb_false_elim in E1 as [E1 E2]. apply N.eqb_neq in E1, E2.
+  destruct (N.eqb c 9) eqn:E3; [apply N.eqb_eq in E3; subst; apply (ShSimple false 9 116); reflexivity|].
+  destruct (N.eqb c 10) eqn:E4; [apply N.eqb_eq in E4; subst; apply (ShSimple false 10 110); reflexivity|].
+  destruct (N.eqb c 13) eqn:E5; [apply N.eqb_eq in E5; subst; apply (ShSimple false 13 114); reflexivity|].
+  apply N.eqb_neq in E3, E4, E5.
+  destruct ((c <? 32) || N.eqb c 127) eqn:E6.
+  { rewrite esc_x_no_dq. apply ShX. apply orb_prop in E6 as [E|E]; [apply N.ltb_lt in E|apply N.eqb_eq in E]; lia. }
+  apply orb_false_elim in E6 as [E6 E7]. apply N.ltb_ge in E6. apply N.eqb_neq in E7.
+  destruct (c <? 127) eqn:E8.
+  { rewrite single_dq_or_not. destruct (N.eqb c c_dq) eqn:E9.
+    - apply N.eqb_eq in E9. subst. apply (ShSimple false _ 34); reflexivity.
+    - apply N.eqb_neq in E9. apply ShPlain; try assumption; try (unfold c_cr; lia); discriminate. }
+  apply N.ltb_ge in E8.
+  destruct (isprintable W c).
+  { rewrite single_dq_or_not. replace (N.eqb c c_dq) with false by (symmetry; apply N.eqb_neq; unfold c_dq; lia).
+    apply ShPlain; unfold c_bs, c_dq, c_cr; try lia; discriminate. }
+  destruct (c <? 256) eqn:E10; [apply N.ltb_lt in E10; rewrite esc_x_no_dq; apply ShX; exact E10|].
+  destruct (c <? 65536) eqn:E11; [apply N.ltb_lt in E11; rewrite esc_u_no_dq; apply ShU; [reflexivity|exact E11]|].
+  rewrite esc_U_no_dq. apply ShUU; [reflexivity|exact Hv].
+Qed.
+
+Lemma hy_esc_b_shape q c : c < 256 -> (q = c_sq \/ (q = c_dq /\ c <> c_dq)) -> eshape true c (hy_esc_b q c).
+Proof.
+  intros Hv Hq. unfold hy_esc_b, py_esc_bytes.
+  destruct (N.eqb c q || N.eqb c c_bs) eqn:E1.
+  { assert (Hc : c = c_sq \/ c = c_bs).
+    { apply orb_prop in E1 as [E|E]; apply N.eqb_eq in E; [|right; exact E].
+      destruct Hq as [->|[-> Hn]]; [left; exact E|congruence]. }
+    destruct Hc as [->| ->]; apply (ShSimple true _ _); reflexivity. }
+  apply orb_false_elim in E1 as [E1 E2]. apply N.eqb_neq in E1, E2.
+  destruct (N.eqb c 9) eqn:E3; [apply N.eqb_eq in E3; subst; apply (ShSimple true 9 116); reflexivity|].
+  destruct (N.eqb c 10) eqn:E4; [apply N.eqb_eq in E4; subst; apply (ShSimple true 10 110); reflexivity|].
+  destruct (N.eqb c 13) eqn:E5; [apply N.eqb_eq in E5; subst; apply (ShSimple true 13 114); reflexivity|].
+  apply N.eqb_neq in E3, E4, E5.
+  destruct ((c <? 32) || (127 <=? c)) eqn:E6.
+  { rewrite esc_x_no_dq. apply ShX. exact Hv. }
+  apply orb_false_elim in E6 as [E6 E7]. apply N.ltb_ge in E6. apply N.leb_gt in E7.
+  rewrite single_dq_or_not. destruct (N.eqb c c_dq) eqn:E9.
+  - apply N.eqb_eq in E9. subst. apply (ShSimple true _ 34); reflexivity.
+  - apply N.eqb_neq in E9. apply ShPlain; try assumption; try (unfold c_cr; lia); intros _; lia.
+Qed.
+
+End HyStr.
+
+Section ReadStr.
+Variable W : oracle.
+
+Definition valid_text (s : text) : Prop := Forall (fun c => c < 1114112) s.
+Definition valid_bytes (s : text) : Prop := Forall (fun c => c < 256) s.
+
+Lemma starts_with_long (r : text) c : (2 <= length r)%nat -> starts_with r [c] = false.
+Proof.
+  destruct r as [|a [|b r]]; simpl; intros H; try lia. all: try (destruct (N.eqb a c); reflexivity).
+Qed.
+
+Lemma hy_str_eq s : hy_str W s = c_dq :: flat_map (hy_esc W (py_quote s)) s ++ [c_dq].
+Proof.
+  unfold hy_str, hy_quoted, py_str_repr. set (q := py_quote s). set (X := flat_map (py_esc_str W q) s).
+  assert (Hl : lstrip_ub (q :: X ++ [q]) = q :: X ++ [q]).
+  { destruct (py_quote_cases s) as [E|[E _]]; fold q in E; rewrite E; reflexivity. }
+  rewrite Hl. rewrite starts_with_long by (simpl; rewrite app_length; simpl; lia).
+  unfold cut_1_m1. cbn [tl app]. rewrite removelast_last. unfold X. rewrite replace_c_flat_map. reflexivity.
+Qed.
+
+Lemma hy_bytes_eq b : hy_bytes b = 98 :: c_dq :: flat_map (hy_esc_b (py_quote b)) b ++ [c_dq].
+Proof.
+  unfold hy_bytes, hy_quoted, py_bytes_repr. set (q := py_quote b). set (X := flat_map (py_esc_bytes q) b).
+  assert (Hl : lstrip_ub (98 :: q :: X ++ [q]) = q :: X ++ [q]).
+  { destruct (py_quote_cases b) as [E|[E _]]; fold q in E; rewrite E; reflexivity. }
+  rewrite Hl. rewrite starts_with_long by (simpl; rewrite app_length; simpl; lia).
+  unfold cut_1_m1. cbn [tl app]. rewrite removelast_last. unfold X. rewrite replace_c_flat_map. reflexivity.
+Qed.
+
+Lemma quote_side s c : In c s -> py_quote s = c_sq \/ (py_quote s = c_dq /\ c <> c_dq).
+Proof.
+  intros Hin. destruct (py_quote_cases s) as [E|[E Hn]]; [left; exact E|right]. split; [exact E|].
+  intros ->. apply mem_In in Hin. congruence.
+Qed.
+
+Lemma str_shapes s : valid_text s -> Forall (fun c => eshape false c (hy_esc W (py_quote s) c)) s.
+Proof.
+  intros Hv. apply Forall_forall. intros c Hin. apply hy_esc_shape.
+  - unfold valid_text in Hv. rewrite Forall_forall in Hv. apply Hv; exact Hin.
+  - apply quote_side; exact Hin.
+Qed.
+
+Lemma bytes_shapes b : valid_bytes b -> Forall (fun c => eshape true c (hy_esc_b (py_quote b) c)) b.
+Proof.
+  intros Hv. apply Forall_forall. intros c Hin. apply hy_esc_b_shape.
+  - unfold valid_bytes in Hv. rewrite Forall_forall in Hv. apply Hv; exact Hin.
+  - apply quote_side; exact Hin.
+Qed.
+
+(* the quoted body is scanned up to the closing quote and decoded to the content *)
+Lemma read_quoted rec bytes esc s rest :
+  Forall (fun c => eshape bytes c (esc c)) s ->
+  read_string_body W rec (CQuote false bytes) false bytes FmNone None (flat_map esc s ++ c_dq :: rest)
+  = RForm (Some (if bytes then MBytes s else MStr s None)) rest.
+Proof.
+  intros Hs. unfold read_string_body. cbn [init_state].
+  rewrite (body_scan bytes esc s Hs), app_nil_r.
+  rewrite cu_step by (left; reflexivity). change (close_step (CQuote false bytes) (StQuote false) c_dq) with (ClClosed 1).
+  cbn [skipn]. rewrite rev_involutive.
+  unfold decode.
+  assert (Hn : norm_newlines (flat_map esc s) = flat_map esc s).
+  { rewrite <- (app_nil_r (flat_map esc s)) at 1. rewrite norm_newlines_app by (apply (body_no_cr bytes); exact Hs).
+    simpl. apply app_nil_r. }
+  rewrite Hn.
+  assert (Ha : (bytes && negb (forallb (fun c => c <? 128) (flat_map esc s))) = false).
+  { destruct bytes; [|reflexivity]. pose proof (body_ascii esc s Hs) as A. unfold asciib in A. rewrite A. reflexivity. }
+  rewrite Ha. cbv iota.
+  rewrite (body_unescape W bytes esc s Hs) by (pose proof (body_length bytes esc s Hs); lia).
+  destruct bytes; reflexivity.
+Qed.
+
+Lemma dq_not_ws : is_ws c_dq = false. Proof. reflexivity. Qed.
+
+Lemma read_hy_str rec s rest : valid_text s ->
+  form_body W rec (hy_str W s ++ rest) = RForm (Some (MStr s None)) rest.
+Proof.
+  intros Hv. rewrite hy_str_eq. unfold form_body. cbn [app]. rewrite skip_ws_nonws by reflexivity.
+  change (dispatch c_dq) with DString. rewrite <- app_assoc. cbn [app].
+  apply (read_quoted rec false). apply str_shapes; exact Hv.
+Qed.
+
+Lemma read_hy_bytes rec b rest : valid_bytes b ->
+  form_body W rec (hy_bytes b ++ rest) = RForm (Some (MBytes b)) rest.
+Proof.
+  intros Hv. rewrite hy_bytes_eq. unfold form_body. cbn [app]. rewrite skip_ws_nonws by reflexivity.
+  change (dispatch 98) with DDefault. unfold default_body. unfold span_ident. rewrite span_none by reflexivity.
+  change (N.eqb c_dq c_dq) with true. cbv iota.
+  change (prefix_flags [98]) with (Some (false, true, FmNone)). cbv iota beta.
+  rewrite <- app_assoc. cbn [app].
+  apply (read_quoted rec true). apply bytes_shapes; exact Hv.
+Qed.
+
+End ReadStr.
